@@ -157,3 +157,18 @@ Theorem C16_dispatch_order_facts :
   gen_relay_first_handleICMPClose = relay_consulted_first /\ gen_relay_match_returns_handleICMPClose = relay_consulted_first.
 Proof. repeat split; reflexivity. Qed.
 Print Assumptions C16_dispatch_order_facts.
+
+(** The relay branch of every *_OPEN handler inserts the entry before it writes
+    the forwarded OPEN ([on_open]: insert, then send, delete on failure), and
+    replies to the opener on the opener's id; a locally unregistered connection
+    still gets its disconnect notification. *)
+Theorem C16_open_order_facts :
+  gen_open_inserts_before_send_handleStreamOpen = true /\ gen_open_deletes_on_send_failure_handleStreamOpen = true /\
+  gen_open_error_reply_to_opener_handleStreamOpen = true /\
+  gen_open_inserts_before_send_handleUDPOpen = true /\ gen_open_deletes_on_send_failure_handleUDPOpen = true /\
+  gen_open_error_reply_to_opener_handleUDPOpen = true /\
+  gen_open_inserts_before_send_handleICMPOpen = true /\ gen_open_deletes_on_send_failure_handleICMPOpen = true /\
+  gen_open_error_reply_to_opener_handleICMPOpen = true /\
+  gen_unregistered_connection_still_notifies_disconnect = true.
+Proof. repeat split; reflexivity. Qed.
+Print Assumptions C16_open_order_facts.
